@@ -27,7 +27,7 @@ META = {
         "fermionic_core.FermionicArray.fuse",
     ],
     "floors": {
-        "quick": {"evaluations": 5000, "distinct_nontrivial": 800, "tables": {"route/mode": 1500, "route/prefuse-contracted": 600, "route/fuse-free-before-after": 600, "kind/fermionic": 1000, "feature/sole-free-leg-prefused": 60, "feature/misaligned": 300}},
+        "quick": {"evaluations": 5000, "distinct_nontrivial": 800, "tables": {"route/mode": 1500, "route/prefuse-contracted": 600, "route/fuse-free-before-after": 600, "kind/fermionic": 1000, "feature/sole-free-leg-prefused": 60, "feature/misaligned": 300, "feature/many-legs": 500}},
         "thorough": {"evaluations": 200000, "distinct_nontrivial": 30000, "tables": {"route/prefuse-contracted": 30000, "route/fuse-free-before-after": 30000, "feature/sole-free-leg-prefused": 3000}},
     },
     "wall": {"quick": 100, "thorough": 1700},
@@ -113,12 +113,21 @@ def same(ctx, what, base, other, leafref, wit, prefused=False, exact_tables=Fals
     return True
 
 
-def case(ctx, rng):
+def case(ctx, rng, manylegs=False):
     sr = ctx.sr
     sym = rng.choice(gen.SYMS5)
     ferm = rng.random() < 0.5
     vals = gen.Values(rng, "int", rng.choice(["float64", "float64", "complex128"]))
-    a, b, axa, axb = gen.contractible_pair(sr, rng, sym, ferm, maxnd=4 if rng.random() < 0.35 else 3, values=vals, maxd=2)
+    if manylegs:
+        # 4-7 fully populated contracted legs of size-one sectors plus 1-2 free legs per side:
+        # dozens of aligned, equally shaped block pairs feed each output block
+        sym = rng.choice(["Z2", "Z2", "U1", "U1", "Z4", "Z2Z2"])
+        ncon = {"Z2": rng.randint(5, 7), "U1": rng.randint(4, 5), "Z4": rng.randint(3, 4), "Z2Z2": rng.randint(3, 4)}[sym]
+        mc = {"Z2": 2, "U1": 3, "Z4": 4, "Z2Z2": 4}[sym]
+        a, b, axa, axb = gen.contractible_pair(sr, rng, sym, ferm, na=ncon + rng.randint(0, 2), nb=ncon + rng.randint(0, 2), ncon=ncon, values=vals, maxd=1, maxc=mc, minc=mc if rng.random() < 0.7 else 2, p_single=0.0, sparsity=rng.choice([0.0, 0.0, 0.2]))
+        ctx.count("feature", "many-legs")
+    else:
+        a, b, axa, axb = gen.contractible_pair(sr, rng, sym, ferm, maxnd=4 if rng.random() < 0.35 else 3, values=vals, maxd=2)
     na = N(a, [f"c{axa.index(i)}" if i in axa else f"a{i}" for i in range(a.ndim)])
     nb = N(b, [f"c{axb.index(i)}" if i in axb else f"b{i}" for i in range(b.ndim)])
     shared = [f"c{k}" for k in range(len(axa))]
@@ -220,4 +229,6 @@ def run(ctx):
     hooks.install_plan_hook()
     for _, rng in ctx.cases("pairs", ctx.budget(48000, 900000)):
         ctx.run_case(case, ctx, rng)
+    for _, rng in ctx.cases("many-legs", ctx.budget(1200, 24000)):
+        ctx.run_case(case, ctx, rng, True)
     hooks.uninstall()
